@@ -130,11 +130,21 @@ def run(tier, seed, replay=None):
                 out[l2] = "EXC %s" % type(e).__name__
         return out
 
+    try:
+        import hephaestus as H          # the driver's own save_program (text + .bin) is what writes stored test cases
+        saver = H.save_program
+    except Exception:                   # noqa: BLE001
+        saver = None
+
     def roundtrip(p, tag):
         path = os.path.join(tmpd, tag + ".bin")
-        U.dump_program(path, p)
+        if saver is not None:
+            saver(p, "// text", path[:-4])
+        else:
+            U.dump_program(path, p)
         q = U.load_program(path)
         return q, open(path, "rb").read()
+    contract_jobs = []
 
     try:
         for lang in T.LANGS:
@@ -145,6 +155,10 @@ def run(tier, seed, replay=None):
                 try:
                     a = progs.generate(lang, sd)
                     b, _ = roundtrip(a, "g")
+                    if s < (2 if tier == "quick" else 20):
+                        keep = os.path.join(tmpd, "x-%s-%d.bin" % (lang, s))
+                        shutil.copy(os.path.join(tmpd, "g.bin"), keep)
+                        contract_jobs.append((lang, sd, keep))
                     prev_file, prev_tree = os.path.join(tmpd, "g.bin"), None
                     for stage in ("generated", "erased", "overwritten"):
                         if stage != "generated":
@@ -236,6 +250,30 @@ def run(tier, seed, replay=None):
                         fuzz_unserialisable[0] += 1
                 except Exception as e:          # noqa: BLE001
                     crashes.append((lang, sd, "tree %s: %s" % (type(e).__name__, str(e)[:120])))
+        # cross-process stream: what --replay does -- a NEW interpreter with ANOTHER hash seed loads the stored file; there the
+        # loaded type objects must honour Python's contract with equal objects made in that process (== implies equal hashes,
+        # membership in sets), or anything the loaded program is compared with or looked up in goes wrong
+        import subprocess as _sp
+        import sys as _sys
+        import json as _json
+        contract_bad, contract_types, contract_done = [], 0, 0
+        for (lang, sd, keep) in contract_jobs:
+            env = dict(os.environ, PYTHONHASHSEED=str(1 + sd % 1000))
+            pr = _sp.run([_sys.executable, os.path.join(C.VERIF, "harness", "c13_child.py"), lang, keep, "0", "contract"], env=env,
+                         stdout=_sp.PIPE, stderr=_sp.STDOUT, text=True, timeout=900)
+            line = [l_ for l_ in pr.stdout.splitlines() if l_.startswith("C13CHILD ")]
+            if not line:
+                crashes.append((lang, sd, "child process: " + pr.stdout[-200:]))
+                continue
+            d_ = _json.loads(line[0][9:])
+            if "error" in d_:
+                crashes.append((lang, sd, "child process: " + d_["error"]))
+                continue
+            contract_done += 1
+            contract_types += d_.get("types", 0)
+            for msg in d_.get("bad", [])[:2]:
+                contract_bad.append((lang, sd, msg))
+                saved[(lang, sd, "generated-contract")] = open(keep, "rb").read()
     finally:
         shutil.rmtree(tmpd, ignore_errors=True)
     t_gen = time.time() - t0
@@ -295,6 +333,9 @@ def run(tier, seed, replay=None):
     for (lang, sd, stage, what) in text_diff[:5]:
         rep.violation("text", "%s seed %d, stage %s: %s" % (lang, sd, stage, what),
                       dict(lang=lang, seed=sd, stage=stage, what=what, program_bin=save(lang, sd, stage), shape="reloaded-text-differs"))
+    for (lang, sd, msg) in contract_bad[:5]:
+        rep.violation("contract", "%s seed %d: loaded in a new interpreter with another hash seed, %s" % (lang, sd, msg),
+                      dict(lang=lang, seed=sd, what=msg, program_bin=save(lang, sd, "generated-contract"), shape="reloaded-hash-contract"))
     for (lang, sd, stage) in redump_diff[:5]:
         rep.violation("redump", "%s seed %d, stage %s: dumping and loading the reloaded program again changes it" % (lang, sd, stage),
                       dict(lang=lang, seed=sd, stage=stage, program_bin=save(lang, sd, stage), shape="redump-differs"))
@@ -302,6 +343,8 @@ def run(tier, seed, replay=None):
         rep.violation("proof", rep.proof_broken, dict(broken=rep.proof_broken), no_input=True)
     rep.add(programs=len(pairs), evaluations=len(pairs), distinct_nontrivial=ncert, pairs_certified_in_kernel=ncert,
             disagreements_checked=sum(1 for v in equal.values() if not v) + len(text_diff) + len(redump_diff),
+            cross_process_loads=contract_done, cross_process_type_objects_checked=contract_types, cross_process_contract_violations=len(contract_bad),
+            saved_through="hephaestus.save_program" if saver is not None else "utils.dump_program",
             texts_compared=4 * len(pairs), text_differences=len(text_diff), redump_tree_differences=len(redump_diff),
             redump_bytes_not_identical=len(bytes_unstable), exceptions=len(crashes), exception_samples=[list(c) for c in crashes[:5]],
             generation_s=round(t_gen, 1),
